@@ -20,23 +20,25 @@ class StmtMixin:
         v0 = n.value
         if isinstance(v0, ast.Call) and isinstance(v0.func, ast.Name) and v0.func.id == "next" and len(v0.args) == 2 and not v0.keywords \
                 and isinstance(v0.args[0], ast.GeneratorExp) and len(v0.args[0].generators) == 1 \
-                and isinstance(v0.args[0].generators[0].target, ast.Name) and "next" not in st.env:
+                and all(isinstance(x, (ast.Name, ast.Tuple)) for x in ast.walk(v0.args[0].generators[0].target) if isinstance(x, ast.expr)
+                        and not isinstance(x, ast.expr_context)) and "next" not in st.env:
             # x = next((E for v in IT if C), D)  ==  for v in IT: if C: x = E; break   else: x = D      (v renamed: it is the
             # generator's own variable)
             g = v0.args[0].generators[0]
-            fresh = "__next_%s_%d" % (g.target.id, n.lineno)
+            own_names = {x.id for x in ast.walk(g.target) if isinstance(x, ast.Name)}
 
             class Ren(ast.NodeTransformer):
                 def visit_Name(self, node):
-                    return ast.copy_location(ast.Name(id=fresh, ctx=node.ctx), node) if node.id == g.target.id else node
+                    return ast.copy_location(ast.Name(id="__next_%s_%d" % (node.id, n.lineno), ctx=node.ctx), node) if node.id in own_names else node
             import copy as _copy
             elt = Ren().visit(_copy.deepcopy(v0.args[0].elt))
             conds = [Ren().visit(_copy.deepcopy(c)) for c in g.ifs]
+            new_target = Ren().visit(_copy.deepcopy(g.target))
             hit = [ast.Assign(targets=n.targets, value=elt, lineno=n.lineno), ast.Break()]
             body = hit
             for c in reversed(conds):
                 body = [ast.If(test=c, body=body, orelse=[])]
-            loop = ast.For(target=ast.Name(id=fresh, ctx=ast.Store()), iter=g.iter, body=body,
+            loop = ast.For(target=new_target, iter=g.iter, body=body,
                            orelse=[ast.Assign(targets=n.targets, value=v0.args[1], lineno=n.lineno)])
             ast.copy_location(loop, n)
             for x in ast.walk(loop):
@@ -303,12 +305,34 @@ class StmtMixin:
             self._drop_reg_facts(st, rg)
         if n.orelse:
             # the else clause runs when the loop ends without break; a break skips it
-            if any(p.exit is not None and p.exit[0] == "break" for p in body_paths):
+            breaks = [p for p in body_paths if p.exit is not None and p.exit[0] == "break" and p.st is not None]
+            seen_b = set()
+            for p in breaks[:8]:
+                # left by break: the body was running, and what it bound on its way out is what the names hold afterwards (the
+                # search idiom: for x in xs: if test(x): found = x; break  else: found = None)
                 sb = st.fork()
                 for nm in list(target_names) + list(names):
                     v = sb.env.get(nm)
                     if isinstance(v, tuple) and v[:1] == ("mu",):
-                        sb.env[nm] = v[1]      # left by break: the body was running
+                        sb.env[nm] = v[1]
+                    if nm in p.st.env:
+                        sb.env[nm] = p.st.env[nm]
+                own = tuple(p.conds[len(st.conds):])
+                sb.conds = sb.conds + own
+                for k2, v2 in p.st.facts.items():
+                    if k2 not in sb.facts:
+                        sb.facts[k2] = v2
+                key = (tuple(sorted((nm, repr(sb.env.get(nm))) for nm in list(target_names) + list(names))), tuple(repr(c) for c in own))
+                if key in seen_b:
+                    continue
+                seen_b.add(key)
+                yield None, sb
+            if len(breaks) > 8:
+                sb = st.fork()
+                for nm in list(target_names) + list(names):
+                    v = sb.env.get(nm)
+                    if isinstance(v, tuple) and v[:1] == ("mu",):
+                        sb.env[nm] = v[1]
                 yield None, sb
             yield from self.block(n.orelse, st, fx)
         else:
